@@ -554,7 +554,9 @@ def judge(tok, repl: str, context: tuple, target: SRow, root: str, doc: Doc, whe
     shared = inner is not None and len(context) > len(inner) and context[: len(inner)] == inner
     if kind == "abs":
         if steps != target.path:
-            return [_v("C03:absolute-path-wrong-node", tail)]
+            # class of the failure: the node reached is the one whose name is the written name in another case
+            folded = steps and steps[-1] != tok["name"] and steps[-1].lower() == tok["name"].lower()
+            return [_v("C03:absolute-path-wrong-node" + (":name-case-folded" if folded else ""), tail)]
         if shared and not tok["in_indexed"]:
             return [_v("C03:absolute-inside-shared-repeat",
                        tail + f"; referrer and target share the repeat /{'/'.join((root, *inner))}, the path must be relative")]
@@ -959,6 +961,12 @@ def ambiguity_family():
                 {"type": "begin repeat", "name": "h2", "label": "H2"}, {"type": "text", "name": "a", "label": "A"},
                 {"type": "end repeat"}] + _as_rows(mk("${a}"))
         out.append(Case(f"c03-dup-section-{cname}", md=corpus.wb_to_md(_wrap(rows)), origin="c03-family"))
+    # names that differ only in case are different names: ${Age} is the row Age, never the row age
+    for cname, mk in REF_CELLS:
+        rows = [{"type": "integer", "name": "Age", "label": "A"},
+                {"type": "begin group", "name": "s0", "label": "S"}, {"type": "integer", "name": "age", "label": "a"},
+                {"type": "end group"}] + _as_rows(mk("${Age}"))
+        out.append(Case(f"c03-case-{cname}", md=corpus.wb_to_md(_wrap(rows)), origin="c03-family"))
     # unknown names
     for cname, mk in REF_CELLS:
         for missing in ("nope", "a2", "A"):
